@@ -151,6 +151,18 @@ def compile_code(filename, code, execer, glb, loc, mode):
     return ccode
 
 
+def _with_filename(ccode, filename):
+    """A cached code object carries the file name it was compiled under;
+    make it (and its nested code objects) name the file of this run."""
+    if ccode.co_filename == filename:
+        return ccode
+    consts = tuple(
+        _with_filename(c, filename) if isinstance(c, types.CodeType) else c
+        for c in ccode.co_consts
+    )
+    return ccode.replace(co_filename=filename, co_consts=consts)
+
+
 def script_cache_check(filename, cachefname):
     """
     Check whether the script cache for a particular file is valid.
@@ -182,6 +194,7 @@ def script_cache_check(filename, cachefname):
                     # A well-formed marshal stream that is not bytecode
                     # (corrupted or foreign file): never execute it.
                     return False, None
+                ccode = _with_filename(ccode, filename)
                 run_cached = True
     return run_cached, ccode
 
